@@ -348,6 +348,9 @@ def run(ctx):
                       "".join("    " + l.replace("{N}", "") + "\n" for l in c["body"])))
     for k, t in enumerate(TAILS):
         files.append((f"tail_{k:02d}.incn", t))
+    from lib import gensyntax                           # spec/GenSyntax.tla: rows of the surface grammar as bases of the edits
+    for nm, src in gensyntax.sample_sources(ctx, 60 if ctx.quick else 600, "c10-syntax"):
+        files.append(("gen/" + nm.replace("/", "+") + ".incn", src))
     lreqs = [{"op": "lex", "src": s, "detail": True} for _, s in files]
     preqs = [{"op": "parse", "src": s, "digest": True} for _, s in files]
     with ctx.timed("replay_corpus"):
